@@ -79,7 +79,7 @@ def _b_parents(P, R):
     pv = Prov(g)
     ms = matches_on(g, "TypeDefinition")
     R.floor("R01-b", "kind match in generate_branching_conditions", len(ms), 1)
-    for m in ms[:1]:
+    for m in c02._kind_match(ms):
         tab = variant_table(m)
         for kind, need in (("Object", None), ("Interface", "utils::interface_implementers"), ("Union", None)):
             arm = tab.get(kind)
@@ -131,6 +131,12 @@ def _b_products(P, R):
          und="no cartesian_product in generate_branching_conditions: how parent objects and assignments are combined is not recognised (the run "
              "instances decide)", loc=g0.loc())
     cut = _cuts(g, "BranchingCondition", "ObjectDefinition", "bool")
+    pvg = Prov(g)
+    gbv = c02._role(P, OT + "type_printer::get_boolean_variables", ["QueryTypePrinterContext", "SelectionSet"], "Vec<&")
+    vcut = sorted({x["method"] for x in g.walk() if x.get("k") == "MethodCall" and x["method"] in CUTTING and has_call(pvg.atoms(x["recv"]), gbv.path)})
+    c02._Toward(R, c02._var_dirs(P)).check("R01-b", "variables-uncut", not vcut, "every enumerated variable takes part in the branching",
+            "generate_branching_conditions cuts the list of enumerated boolean variables short (%s): a variable beyond the cut is in no branch, but the skip test still "
+            "asks for it — generation panics on a valid document (or, with a lenient look-up, the selection is typed for one value only)" % vcut, loc=g0.loc())
     filt = sorted({c["method"] for c in g.walk() if c.get("k") == "MethodCall" and c["method"] in ("filter", "filter_map")})
     _tri(R, "R01-b", "conditions-unfiltered", False if cut else (None if filt else True), "no condition is filtered out",
          "conditions are cut down with %s" % cut, "generate_branching_conditions applies %s; whether a condition can be dropped is not decided" % filt, loc=g0.loc())
@@ -235,6 +241,57 @@ KEYED = ("get", "get_mut", "insert", "entry", "contains_key", "contains", "remov
 MAPS = ("HashMap<", "BTreeMap<", "IndexMap<", "HashSet<", "BTreeSet<", "IndexSet<")
 
 
+def _projection(pv, e):
+    """how `e` is computed from the (name, value) pairs of `boolean_variables`: (pairs are taken apart?, names kept?, values kept?)"""
+    names_kept = values_kept = destructured = False
+    nodes = _src_nodes(pv, e)
+    used = {y.get("local") for y in nodes if y.get("k") == "Path" and "local" in y}
+    for y in nodes:
+        ty = str(y.get("t") or "").replace("&", "").replace("'_ ", "").strip()
+        if y.get("k") == "Tuple" and len(y.get("ps", [])) == 2 and ty.replace(" ", "") in ("(str,bool)",):
+            destructured = True
+            p0, p1 = y["ps"]
+            names_kept = names_kept or (p0.get("k") == "Binding" and p0.get("local") in used)
+            values_kept = values_kept or (p1.get("k") == "Binding" and p1.get("local") in used)
+        if y.get("k") == "Field" and not y.get("adt") and str(y["e"].get("t") or "").replace("&", "").replace(" ", "") == "(str,bool)":
+            destructured = True
+            names_kept = names_kept or y["field"] == "0"
+            values_kept = values_kept or y["field"] == "1"
+    return destructured, names_kept, values_kept
+
+
+def r01c_identity(P, R):
+    """what a branch records of its condition besides its content is what later stages can pair branches by — across selection sets governed by
+    different variables.  A component that keeps the values of the boolean variables but not their names, *and* that the merge reads when
+    it pairs branches, makes branches of different assignments equal."""
+    go0 = P.fn(OT + "type_printer::get_object_type_for_selection_set")
+    go = _inl(P, go0)
+    pv = Prov(go)
+    content = {"unaliased_fields", "aliased_fields"}
+    lits = [n for n in go.walk() if n.get("k") == "Struct" and "rest" not in n and norm(n.get("adt", "")) == STB]
+    values_only = []
+    for n in lits:
+        for fld in n["fields"]:
+            if fld["name"] in content or not has_field(pv.deep_atoms(fld["e"]), BC, "boolean_variables"):
+                continue
+            d, names, values = _projection(pv, fld["e"])
+            if d and values and not names:
+                values_only.append(fld["name"])
+    if not values_only:
+        R.holds("R01-c", "branch-identity:values-only", "no component of a branch holds the values of its variables without their names", loc=go0.loc())
+        return
+    mg0 = P.fn(OT + "deep_merge::merge_selection_trees")
+    mg = _inl(P, mg0)
+    mpv = Prov(mg)
+    conds = [n["cond"] for n in mg.walk() if n.get("k") == "If"] + [x["args"][0] for x in mg.walk() if x.get("k") == "MethodCall" and x["args"]
+                                                                      and x["args"][0].get("k") == "Closure" and x["method"] in ("find", "filter", "position", "any", "all", "rfind", "find_map", "filter_map")]
+    read = sorted({f for cnd in conds for f in values_only if has_field(mpv.atoms(cnd), STB, f)})
+    R.check("R01-c", "branch-identity:values-only", not read, "a values-only component of a branch is not used to pair branches",
+            "a SelectionTreeBranch records %s as the *values* of its branch's boolean variables, without the variables' names, and merge_selection_trees pairs the "
+            "branches of two occurrences of a response key by it: two occurrences governed by different variables (`a { x @skip(if:$v) } a { y @skip(if:$w) }`) "
+            "have equal value vectors and are paired position by position, the mixed assignments (v true, w false) get no branch" % read, loc=go0.loc())
+
+
 def r01c_keys(P, R):
     """a map keyed by (part of) a BranchingCondition — a memo of expansions, an index of branches — identifies branches across *all* selection sets
     that share the map.  The position of a variable in `boolean_variables` is the order in which one selection set happens to meet the
@@ -259,19 +316,7 @@ def r01c_keys(P, R):
                 continue
             n += 1
             seen += 1
-            names_kept = values_kept = destructured = False
-            used = {y.get("local") for y in _src_nodes(pv, key) if y.get("k") == "Path" and "local" in y}
-            for y in _src_nodes(pv, key):
-                ty = str(y.get("t") or "").replace("&", "").replace("'_ ", "").strip()
-                if y.get("k") == "Tuple" and len(y.get("ps", [])) == 2 and ty.replace(" ", "") in ("(str,bool)",):
-                    destructured = True
-                    p0, p1 = y["ps"]
-                    names_kept = names_kept or (p0.get("k") == "Binding" and p0.get("local") in used)
-                    values_kept = values_kept or (p1.get("k") == "Binding" and p1.get("local") in used)
-                if y.get("k") == "Field" and not y.get("adt") and str(y["e"].get("t") or "").replace("&", "").replace(" ", "") == "(str,bool)":
-                    destructured = True
-                    names_kept = names_kept or y["field"] == "0"
-                    values_kept = values_kept or y["field"] == "1"
+            destructured, names_kept, values_kept = _projection(pv, key)
             k = "branch-key:%s#%d" % (name, n)
             shared = any(x[0] == "param" for x in pv.atoms(c["recv"]))
             if not destructured:
@@ -295,7 +340,7 @@ def r01d(P, R):
 
 
 def r01c_all(P, R):
-    _sections(P, R, "R01-c", r01c, r01c_keys)
+    _sections(P, R, "R01-c", r01c, r01c_keys, r01c_identity)
 
 
 RULES = [("R01-a", r01a), ("R01-b", r01b), ("R01-c", r01c_all), ("R01-d", r01d)]
